@@ -275,6 +275,9 @@ func MakeLegacyNode(hash, buf []byte) (*Node, error) {
 		if err != nil {
 			return nil, fmt.Errorf("decoding node.rightHash, %w", err)
 		}
+		if len(leftHash) != hashSize || len(rightHash) != hashSize {
+			return nil, errors.New("invalid child hash length")
+		}
 		node.leftNodeKey = leftHash
 		node.rightNodeKey = rightHash
 	}
